@@ -5,9 +5,12 @@ package gateway
 // C31 harness -- trustless gateway responses (CAR / raw block) are verifiable and sufficient.
 //
 // replay (phase G): every input line is one (small tree, content path) emitted by TLC from
-//   spec/GatewayCar/GenGatewayCar.tla together with, per request (dag-scope x entity-bytes x dups),
-//   the block set the specification requires.  The harness builds the real UnixFS DAG, sends
-//   the requests through gateway.NewHandler over a BlocksBackend, parses the CAR and compares.
+//   spec/GatewayCar/GenGatewayCar.tla together with, per request (dag-scope x entity-bytes x
+//   duplicates policy y|n|unspecified x entry point), the block set the specification requires.
+//   The harness builds the real UnixFS DAG, sends the requests through gateway.NewHandler over a
+//   BlocksBackend (via "http"; policy "unspec" = no dups parameter at all) or calls the trustless
+//   backend interface BlocksBackend.GetCAR(path, CarParams) directly (via "api"; policy "unspec" =
+//   the zero value of CarParams.Duplicates), parses the CAR and compares.
 // record (phase T): random larger trees built with the real importer / HAMT code; the DAG is
 //   projected to the model encoding, every response is logged block by block and validated
 //   by spec/GatewayCar/TraceGatewayCar.tla.
@@ -42,6 +45,7 @@ import (
 	"github.com/ipfs/boxo/ipld/unixfs/importer/balanced"
 	ihelpers "github.com/ipfs/boxo/ipld/unixfs/importer/helpers"
 	"github.com/ipfs/boxo/ipld/unixfs/importer/trickle"
+	gwpath "github.com/ipfs/boxo/path"
 	blocks "github.com/ipfs/go-block-format"
 	"github.com/ipfs/go-cid"
 	ds "github.com/ipfs/go-datastore"
@@ -72,7 +76,8 @@ type c31Req struct {
 	From  int64  `json:"from"`
 	Star  bool   `json:"star"`
 	To    int64  `json:"to"`
-	Dups  bool   `json:"dups"`
+	Dups  string `json:"dups"` // duplicates policy: "y" | "n" | "unspec" (nothing stated)
+	Via   string `json:"via"`  // "http" (gateway.NewHandler) | "api" (direct BlocksBackend.GetCAR call)
 	Lo    int64  `json:"lo"`
 	Hi    int64  `json:"hi"`
 	Need  []int  `json:"need"`
@@ -95,6 +100,7 @@ type c31World struct {
 	ctx   context.Context
 	bs    blockstore.Blockstore
 	dserv format.DAGService
+	be    *BlocksBackend
 	h     http.Handler // trustless-only gateway (Config.DeserializedResponses = false)
 	hd    http.Handler // gateway that also serves deserialized responses (raw blocks below a path)
 	cidOf map[int]cid.Cid
@@ -117,7 +123,7 @@ func c31NewWorld() *c31World {
 	}
 	h := NewHandler(Config{MetricsRegistry: prometheus.NewRegistry()}, backend)
 	hd := NewHandler(Config{MetricsRegistry: prometheus.NewRegistry(), DeserializedResponses: true}, backend)
-	return &c31World{ctx: context.Background(), bs: bs, dserv: dserv, h: h, hd: hd,
+	return &c31World{ctx: context.Background(), bs: bs, dserv: dserv, be: backend, h: h, hd: hd,
 		cidOf: map[int]cid.Cid{}, idOf: map[string]int{}}
 }
 
@@ -424,26 +430,83 @@ func c31RangeStr(rq c31Req) string {
 	return fmt.Sprintf("%d:%d", rq.From, rq.To)
 }
 
+// getCarAPI calls the trustless backend interface directly: BlocksBackend.GetCAR(path, CarParams).
+// The duplicates policy is passed as the caller stated it; "unspec" is the zero value of the field.
+func (w *c31World) getCarAPI(root cid.Cid, realPath []string, rq c31Req, style int) *c31Car {
+	text := "/ipfs/" + root.String()
+	if len(realPath) > 0 {
+		text += "/" + strings.Join(realPath, "/")
+	}
+	p, err := gwpath.NewPath(text)
+	if err != nil {
+		return &c31Car{status: 400, rawBody: []byte("api path: " + err.Error())}
+	}
+	ip, err := gwpath.NewImmutablePath(p)
+	if err != nil {
+		return &c31Car{status: 400, rawBody: []byte("api path: " + err.Error())}
+	}
+	params := CarParams{Scope: DagScope(rq.Scope)}
+	switch rq.Dups {
+	case "y":
+		params.Duplicates = DuplicateBlocksIncluded
+	case "n":
+		params.Duplicates = DuplicateBlocksExcluded
+	} // "unspec": zero value
+	if style%2 == 0 {
+		params.Order = DagOrderDFS
+	}
+	if rq.Has {
+		rng := DagByteRange{From: rq.From}
+		if !rq.Star {
+			to := rq.To
+			rng.To = &to
+		}
+		params.Range = &rng
+	}
+	_, rc, err := w.be.GetCAR(w.ctx, ip, params)
+	if err != nil {
+		return &c31Car{status: 500, rawBody: []byte("GetCAR: " + err.Error())}
+	}
+	defer rc.Close()
+	body, rerr := io.ReadAll(rc)
+	res := &c31Car{status: http.StatusOK, ctype: "application/vnd.ipld.car (api)", rawBody: body}
+	if rerr != nil {
+		res.carErr = "stream: " + rerr.Error() // like X-Stream-Error over HTTP: what arrived is still judged
+	}
+	return w.parseCar(res)
+}
+
 // getCar performs the request; style alternates between Accept-header parameters and URL parameters.
 func (w *c31World) getCar(root cid.Cid, realPath []string, rq c31Req, style int) *c31Car {
+	if rq.Via == "api" {
+		return w.getCarAPI(root, realPath, rq, style)
+	}
 	q := url.Values{}
 	q.Set("dag-scope", rq.Scope)
 	if rq.Has {
 		q.Set("entity-bytes", c31RangeStr(rq))
 	}
-	d := "n"
-	if rq.Dups {
-		d = "y"
+	d := "" // policy "unspec": no dups parameter at all
+	if rq.Dups == "y" || rq.Dups == "n" {
+		d = "dups=" + rq.Dups
 	}
 	accept := ""
 	switch style % 3 {
 	case 0:
-		accept = "application/vnd.ipld.car; version=1; order=dfs; dups=" + d
+		accept = "application/vnd.ipld.car; version=1; order=dfs"
+		if d != "" {
+			accept += "; " + d
+		}
 	case 1:
-		accept = "application/vnd.ipld.car;dups=" + d
+		accept = "application/vnd.ipld.car"
+		if d != "" {
+			accept += ";" + d
+		}
 	default:
 		q.Set("format", "car")
-		q.Set("car-dups", d)
+		if d != "" {
+			q.Set("car-dups", rq.Dups)
+		}
 	}
 	req := httptest.NewRequest(http.MethodGet, w.url(root, realPath)+"?"+q.Encode(), nil)
 	if accept != "" {
@@ -459,6 +522,10 @@ func (w *c31World) getCar(root cid.Cid, realPath []string, rq c31Req, style int)
 	if rec.Code != http.StatusOK {
 		return res
 	}
+	return w.parseCar(res)
+}
+
+func (w *c31World) parseCar(res *c31Car) *c31Car {
 	br, err := carv2.NewBlockReader(bytes.NewReader(res.rawBody), carv2.WithTrustedCAR(true))
 	if err != nil {
 		res.carErr = "header: " + err.Error()
@@ -471,7 +538,9 @@ func (w *c31World) getCar(root cid.Cid, realPath []string, rq c31Req, style int)
 			break
 		}
 		if err != nil {
-			res.carErr = err.Error()
+			if res.carErr == "" {
+				res.carErr = err.Error()
+			}
 			break
 		}
 		res.blocks = append(res.blocks, blk)
@@ -775,7 +844,7 @@ func c31ReplayOne(i int, b *c31Beh, orderDiff, extra, reqs *int) M {
 		if rq.Has {
 			desc += " entity-bytes=" + c31RangeStr(rq)
 		}
-		desc += fmt.Sprintf(" dups=%v size=%d: ", rq.Dups, b.Size)
+		desc += fmt.Sprintf(" dups=%v via=%s size=%d: ", rq.Dups, rq.Via, b.Size)
 		if dag[b.Term].K == "file" || dag[b.Term].K == "leaf" {
 			if lo, hi := c31ResolveRange(rq, b.Size); rq.Scope == "entity" && (lo != rq.Lo || hi != rq.Hi) {
 				panic(fmt.Sprintf("c31: harness range rule (%d,%d) differs from the specification (%d,%d) for %s", lo, hi, rq.Lo, rq.Hi, desc))
@@ -806,7 +875,7 @@ func c31ReplayOne(i int, b *c31Beh, orderDiff, extra, reqs *int) M {
 			}
 			got[id]++
 			seq = append(seq, id)
-			if got[id] > 1 && !rq.Dups {
+			if got[id] > 1 && rq.Dups != "y" {
 				return fail(k+1, desc+fmt.Sprintf("DupsOnlyIfRequested: node %d appears twice, CAR=%v", id, seq))
 			}
 		}
@@ -860,6 +929,15 @@ func (g *c31Gen) file(size int64) (format.Node, int64) {
 	unit := units[g.rng.Intn(len(units))]
 	for size/unit > 20 { // keep the number of blocks per file moderate
 		unit *= 2
+	}
+	if g.rng.Intn(4) == 0 {
+		// repetitive content (think of zero-filled regions): two of every three chunks are the same
+		// chunk, so the file's DAG repeats a block; the per-file filler keeps files distinct
+		for i := range data {
+			if int64(i)/unit%3 != 2 {
+				data[i] = byte(g.nfile >> (8 * (i % 2)))
+			}
+		}
 	}
 	p := ihelpers.DagBuilderParams{
 		Maxlinks:  []int{2, 3, 5, 11, 174}[g.rng.Intn(5)],
@@ -971,7 +1049,8 @@ func (g *c31Gen) dir(prefix []string, depth int, n int, maxSize int64) format.No
 func (g *c31Gen) pick(vals ...int64) int64 { return vals[g.rng.Intn(len(vals))] }
 
 func (g *c31Gen) request(t c31Target) c31Req {
-	rq := c31Req{Scope: []string{"block", "entity", "entity", "entity", "all"}[g.rng.Intn(5)], Dups: g.rng.Intn(3) == 0, Star: true}
+	rq := c31Req{Scope: []string{"block", "entity", "entity", "entity", "all"}[g.rng.Intn(5)],
+		Dups: []string{"y", "n", "unspec"}[g.rng.Intn(3)], Via: []string{"http", "http", "api"}[g.rng.Intn(3)], Star: true}
 	if rq.Scope != "entity" || g.rng.Intn(6) == 0 {
 		return rq
 	}
@@ -1038,7 +1117,7 @@ func c31Record(t *testing.T) {
 				at, rp, path = tg.c, nil, []string{}
 			}
 			vEmit(M{"ev": "Req", "at": w.idOf[c31Key(at)], "path": path, "scope": rq.Scope, "has": rq.Has, "from": rq.From, "star": rq.Star,
-				"to": rq.To, "dups": rq.Dups, "size": tg.size})
+				"to": rq.To, "dups": rq.Dups, "via": rq.Via, "size": tg.size})
 			car := w.getCar(at, rp, rq, k)
 			for j, blk := range car.blocks {
 				vEmit(M{"ev": "Block", "n": w.idOf[c31Key(blk.Cid())], "hashOK": car.hashOK[j]})
